@@ -265,7 +265,11 @@ func (cr *caseRun) judge(mut int) (v verdict) {
 	show := func() string {
 		var as []string
 		for _, a := range cr.args {
-			as = append(as, lisp.Show(a))
+			if l, isList := a.(slip.List); isList && len(l) == 0 {
+				as = append(as, "'()") // the empty list object, as opposed to the symbol nil
+			} else {
+				as = append(as, lisp.Show(a))
+			}
 		}
 		e := ""
 		if cr.env != "" {
@@ -993,6 +997,40 @@ func (cr *caseRun) spaced(what string) (out *caseRun, ok bool) {
 	return out, ok
 }
 
+// hasNestedParamBlock: some ~[ inside a ~[ or ~{ inside a ~{ carries a prefix parameter (in the control
+// or in a control string passed as an argument).
+func (cr *caseRun) hasNestedParamBlock() (found bool) {
+	defer func() {
+		if rec := recover(); rec != nil {
+			found = false
+		}
+	}()
+	var walk func(l []*node, inCond, inIter bool) bool
+	walk = func(l []*node, inCond, inIter bool) bool {
+		for _, n := range l {
+			if 0 < len(n.params) && ((n.ch == '[' && inCond) || (n.ch == '{' && inIter)) {
+				return true
+			}
+			c, i := inCond || n.ch == '[', inIter || n.ch == '{'
+			if walk(n.body, c, i) {
+				return true
+			}
+			for _, cl := range n.clauses {
+				if walk(cl, c, i) {
+					return true
+				}
+			}
+		}
+		return false
+	}
+	for _, c := range cr.controls() {
+		if walk(parseControl(c), false, false) {
+			return true
+		}
+	}
+	return false
+}
+
 // unparameterised returns the case with the prefix parameters of every block directive that sits
 // inside another block removed (main control only). ok is false when nothing changed.
 func (cr *caseRun) unparameterised() (out *caseRun, ok bool) {
@@ -1039,7 +1077,7 @@ func signature(cr *caseRun, v verdict) string {
 	if v.category == "wrong-text" && (strings.HasPrefix(v.kind, "wrong-word") || v.kind == "spelling-ok-but-spacing-wrong") {
 		return fmt.Sprintf("shape=%s kind=%s", sh, v.kind)
 	}
-	if v.category == "error" || v.category == "go-fault" || v.category == "wrong-text" {
+	if v.category == "error" || v.category == "go-fault" || v.kind == "wrong-text" {
 		for _, what := range []string{")", "]", "}", ";", ":;", ""} {
 			if sp, changed := cr.spaced(what); changed && surelyTerminates(sp) {
 				if sv := sp.judge(refMutNone); sv.defined && sv.kind == "" {
@@ -1055,7 +1093,7 @@ func signature(cr *caseRun, v verdict) string {
 			}
 		}
 	}
-	if v.category == "error" || v.category == "go-fault" || v.category == "wrong-text" {
+	if v.category == "error" || v.category == "go-fault" || v.kind == "wrong-text" {
 		if up, changed := cr.unparameterised(); changed && surelyTerminates(up) {
 			if uv := up.judge(refMutNone); uv.defined && uv.kind == "" {
 				return fmt.Sprintf("trigger=nested-block-with-prefix-parameter kind=%s", v.category)
@@ -1066,6 +1104,12 @@ func signature(cr *caseRun, v verdict) string {
 				}
 			}
 		}
+	}
+	if v.category == "error" && (strings.Contains(v.kind, "not terminated") || strings.Contains(v.kind, "invalid directive") ||
+		strings.Contains(v.kind, "invalid form for conditional")) && cr.hasNestedParamBlock() {
+		// the causal check above could not be made (removing the parameter changes which arguments are
+		// read), but the message is one of the block scanner's and the syntactic trigger is present
+		return "trigger=nested-block-with-prefix-parameter kind=error"
 	}
 	switch {
 	case strings.HasSuffix(v.kind, "-spaces"):
